@@ -206,16 +206,17 @@ PROPS["C08"] = {
     "no_kani": True,
     "needs_rand_090": False,
     "mirlex": True,
-    "mirlex_labels": ["X1", "X2", "X3", "X4", "X5"],
+    "mirlex_labels": ["X1", "X2", "X3", "X4", "X5", "X7"],
     "functions": ["MIR of <ec_core::operator::selector::lexicase::Lexicase as Selector<P>>::select"],
     "bounds": {
         "quick": "populations x cases (n,m) in {(0,0),(0,2),(1,0),(1,2),(2,1),(2,2),(3,2),(2,3),(3,3),(4,2)}, every result a SYMBOLIC unbounded integer (ties, duplicates and every relative "
                  "order decided by z3 at the three-way comparison), both polarities (scores / errors), every case order and every final order of the survivors (the shuffle models fork "
-                 "over all permutations): returned individual in REF(sigma), candidate set before the final choice == REF(sigma), not Pareto-dominated, Ok iff non-empty; every survivor can be the final pick (X4)",
+                 "over all permutations): returned individual in REF(sigma), candidate set before the final choice == REF(sigma), not Pareto-dominated, Ok iff non-empty; every survivor can be the final pick (X4); every fork carries its probability (shuffle 1/k!, random_range 1/len) and on four concrete result matrices "
+                 "per size (specialists, all tied, one dominant, staircase; n*m <= 9) the exact law of the winner equals 'fraction of case orders survived, shared equally among the survivors' (X7)",
         "thorough": "as quick plus (4,3) and (3,4)",
     },
-    "outside": "uniformity of the case order and of the final choice is rand's documented shuffle contract (modelled as 'any permutation'): the probability law of the statement follows from "
-               "X2 arithmetically and is not re-proved; populations of more than 4 individuals / more than 3 cases; individuals with missing results (decided for <= 1 case under C06); "
+    "outside": "uniformity of SliceRandom::shuffle / random_range is rand's documented contract (modelled as equally likely outcomes); GIVEN it, the probability law of the statement is decided on four concrete "
+               "matrices per size (X7) and follows from X2 + X4 for symbolic matrices; populations of more than 4 individuals / more than 3 cases; individuals with missing results (decided for <= 1 case under C06); "
                "std's Vec / slice / Option / Result helpers are models, not executed code",
     "assumptions": ["rustc's MIR (nightly, -Zunpretty=mir) is the semantics of the source; the Python MIR interpreter stops (exit 2) on any statement or callee it has no rule for",
                     "Ord on the result type is the integer order (scores) or its reverse (errors): Score/Error's Ord is decided under C15"],
